@@ -712,3 +712,80 @@ def rule_N4(ctx):
                           "an arm of SimpleNumber::partial_cmp does not return the primitive partial_cmp of its operands (calls: %s): a total order such as total_cmp makes NaN comparable and separates -0.0 from 0.0" % sorted(set(inner)))
     r.floor("arms of SimpleNumber::partial_cmp", n, 4)
     return r
+
+
+# ------------------------------------------------------------------------------------ G6
+# Parent-chain walks are capped.  The parser finds where a token belongs, and finally the root, by following `parent` links
+# upwards.  Malformed input can leave a loop in those links (`1+;;@a--2*3`), so every such walk counts its iterations and
+# gives up with an error once the count exceeds the number of nodes - the termination argument for these loops.
+
+
+def parent_walk_loops(f):
+    """[(loop, capped?)] for the loops of f whose body reads a node's parent link."""
+    out = []
+    for lp in walk(f["hir"]):
+        if lp.get("k") != "Loop" or str(lp.get("src", "")).startswith("ForLoop"):
+            continue  # a `for` over an iterator ends with the iterator
+        reads_parent = False
+        for n in walk(lp):
+            if n.get("k") == "Field" and n.get("name") == "parent":
+                reads_parent = True
+            if n.get("k") == "MethodCall" and n.get("m") == "get_parent":
+                reads_parent = True
+        if not reads_parent:
+            continue
+        # nested loops: judge the innermost loop that reads the link
+        if any(x is not lp and x.get("k") == "Loop" and any((y.get("k") == "Field" and y.get("name") == "parent") or (y.get("k") == "MethodCall" and y.get("m") == "get_parent") for y in walk(x)) for x in walk(lp)):
+            continue
+        counters = set()
+        for n in walk(lp):
+            if n.get("k") == "AssignOp" and n.get("op") in ("+=", "+", "Add", "AddAssign"):
+                l = hirq.local_of(n["l"])
+                if l is not None:
+                    counters.add(l)
+            if n.get("k") == "Assign":
+                l = hirq.local_of(n["l"])
+                r_ = peel(n["r"])
+                if l is not None and r_.get("k") == "Binary" and r_.get("op") == "+" and hirq.local_of(r_["l"]) == l:
+                    counters.add(l)
+        capped = False
+        for n in walk(lp):
+            if n.get("k") != "If":
+                continue
+            c = peel(n["cond"])
+            if c.get("k") == "Binary" and c.get("op") in (">", ">=", "<", "<=", "=="):
+                sides = [c["l"], c["r"]]
+                has_counter = any(hirq.local_of(x) in counters for x in sides)
+                has_len = any(peel(x).get("k") == "MethodCall" and peel(x).get("m") == "len" for x in sides)
+                exits = any(x.get("k") == "Ret" or (x.get("k") == "Match" and x.get("src") == "TryDesugar") or x.get("k") == "Break" for x in walk(n.get("then") or {}))
+                if has_counter and has_len and exits:
+                    capped = True
+        out.append((lp, capped))
+    return out
+
+
+def rule_G6(ctx):
+    F = ctx.F
+    r = RuleResult("G6", "parent-chain walks are capped: every parser loop that follows parent links counts its iterations and gives up once the count exceeds the number of nodes")
+    n = 0
+    for f in sorted(F.fns.values(), key=lambda f: f["path"]):
+        if f["crate"] != "garnish_lang_compiler" or "::parse::" not in f["path"] or f["kind"] == "Closure":
+            continue
+        k = 0
+        for lp, capped in parent_walk_loops(f):
+            n += 1
+            k += 1
+            r.examine((f["path"], loc(lp)), True, {"fn": f["path"], "loop": loc(lp), "capped": capped})
+            if not capped:
+                r.finding(f["path"], "uncapped-parent-walk#%d" % k, loc(lp), "the loop at %s follows parent links without an iteration cap tied to the node count: a loop in the parent chain (malformed input can produce one) makes the parser spin forever" % loc(lp))
+    r.floor("parser loops following parent links", n, 2)
+    for f in F.fns_in("gfixture::g6::"):
+        if f["kind"] == "Closure":
+            continue
+        res = parent_walk_loops(f)
+        bad = any(not c for _l, c in res)
+        if f["name"].startswith("ctl_"):
+            r.control(f["name"], bad)
+        elif f["name"].startswith("ok_"):
+            r.neg_control(f["name"], bool(res) and not bad)
+    return r
